@@ -84,8 +84,10 @@ def generate(rng, tier):
                 for kind, repl in (("fault", ["F"]), ("errline", [("L", "!Err: 5")]), ("wrongname", [("L", "ZZ,1")]), ("silence", ["E"] * 30),
                                    ("nameerr", [("L", nm_i + ",Err: 7")]), ("nameerr2", [("L", nm_i + " Err: bad")]),
                                    ("nearname", [("L", nm_i[:1] + "_,1")]),          # shares only the first character with the expected name
-                                   ("casename", [("L", nm_i.swapcase() + (nom[i][1][len(nm_i):] if isinstance(nom[i], tuple) else ""))])):      # the right letters in the other case: a different name
-                    if kind in ("errline", "wrongname", "nameerr", "nameerr2", "nearname", "casename") and nom[i] == "E": continue          # those replace a reply, not a write
+                                   ("casename", [("L", nm_i.swapcase() + (nom[i][1][len(nm_i):] if isinstance(nom[i], tuple) else ""))]),      # the right letters in the other case: a different name
+                                   ("okfirst", [("L", "OK"), nom[i]])):          # a legacy-style 'OK' line arrives first: it is the reply, and it is not the request's name
+                    if kind in ("errline", "wrongname", "nameerr", "nameerr2", "nearname", "casename", "okfirst") and nom[i] == "E": continue          # those replace a reply, not a write
+                    if kind == "okfirst" and (not nm_i or "OK".startswith(nm_i)): continue
                     if kind == "nearname" and len(nm_i) < 2: continue
                     if kind == "casename" and nm_i.swapcase() == nm_i: continue
                     ev = nom[:i] + repl + nom[i + 1:]
